@@ -110,6 +110,7 @@ package internal
 //@ func (*compiler).compileInput
 //@   option props=[C13]
 //@   requires $C
+//@   ensures [C13] always-returns-an-input: result != nil
 
 //@ func (*compiler).compileOutput
 //@   option props=[C13]
@@ -249,3 +250,33 @@ package internal
 //@   at call findFlowCyclesForFunc 1 pre assert [C14] recursion-follows-each-dependency-with-the-extended-path: arg0 == f && arg2 == fn.Dependencies[idx2] && arg3 == visited && len(arg1) == len(path) + 1 && arg1[len(path)].Type == t && arg1[len(path)].Func == fn
 //@   at call findFlowCyclesForFunc 1 ghost nsearch = nsearch + 1
 //@   at call Set 1 pre assert [C14] memoised-only-after-every-dependency-was-searched: nsearch == len(fn.Dependencies) && arg1 == t
+
+// ---------------------------------------------------------------------------
+// C14, providers: a type provided twice - by two values in cff.Params or by two
+// tasks - is reported before the iteration that found it ends (ghost dup is
+// raised by the map lookup that finds the earlier provider and cleared only by
+// the diagnostic; the loop invariant !dup is checked on every back edge), and a
+// flow with any diagnostic is rejected. C13: no-panic sweep of compileFlow.
+
+//@ macro FUNCSOK = forall(i, int, implies(0 <= i && i < len(flow.Funcs), flow.Funcs[i] != nil && flow.Funcs[i].Node != nil))
+
+//@ func (*compiler).compileFlow
+//@   option props=[C13]
+//@   ghost dup bool = false
+//@   requires $C && call != nil && file != nil
+//@   requires typeChecked-flow-has-a-context-argument: len(call.Args) >= 1
+//@   loop 1 invariant task-functions-non-nil: $FUNCSOK && !dup
+//@   loop 2 invariant [C14] duplicate-params-type-was-reported: !dup && $FUNCSOK
+//@   loop 3 invariant results-loop: $FUNCSOK
+//@   at call At 1 ghost dup = typeof(ret) == typeid("*go.uber.org/cff/internal.input") && dataof(ret) != 0
+//@   at call errf 5 ghost dup = false
+//@   at call compileInstrument 1 pre assume typeChecked-instrument-arity: len(arg1.Args) == 1
+//@   at call Name 1 assume typeChecked-single-argument-options-have-their-argument: implies(ret == "Task" || ret == "Concurrency" || ret == "InstrumentFlow" || ret == "WithEmitter", len(ce.Args) >= 1)
+//@   at call compileTask 1 assume compiled-task-has-its-functions: implies(ret != nil, ret.Function != nil && ret.Function.Node != nil && implies(ret.Predicate != nil, ret.Predicate.Function != nil && ret.Predicate.Function.Node != nil))
+//@   loop 4 invariant providers-loop: $FUNCSOK && !dup
+//@   loop 5 invariant receivers-loop: $FUNCSOK && !dup
+//@   loop 6 invariant [C14] duplicate-provider-was-reported: !dup && $FUNCSOK
+//@   at call Set 5 assume providers-hold-function-indices: ret == nil || (typeof(ret) == typeid("int") && 0 <= dataof(ret) && dataof(ret) < len(flow.Funcs))
+//@   at call Set 5 ghost dup = ret != nil
+//@   at call errf 6 ghost dup = false
+//@   ensures@return4 [C14] accepted-flow-has-no-diagnostics: len(c.errors) == 0
